@@ -202,6 +202,18 @@ CHECKS = {
             'Names colliding with members of the snapshot type are excluded as the property says; '
             'snapshot.__dict__ is not manipulated directly.',
             'DESIGN.md section 3 / C17'),
+    'C19': ('exploration',
+            'differential property-based testing (Hypothesis): twin worlds (shorthand through a controller vs '
+            'the corresponding World call), Prototype subclasses built with type() vs a specification '
+            'function, OnUpdateProcessor vs callback log',
+            'Randomised search with shrinking over world histories, controller variants (attached, bare, plain '
+            'protocol object, detached, entity pending deletion) and all twelve shorthands incl. reference '
+            'get/set/del for components and processors; results, exception types and the complete observable '
+            'state of both worlds compared, also after the next frame; prototypes over every combination of '
+            'construction sources, prefixes and subclass overrides; on_update relay with arbitrary dt objects.',
+            'Dispatching enabled in the twin worlds; reference assignments satisfy the descriptor\'s isinstance '
+            'assertion; sources tag what they build.',
+            'DESIGN.md section 3 / C19'),
     'C20': ('exploration',
             'property-based testing (Hypothesis): assignment histories over Transform2D/3D instances with '
             'generated listeners; per-assignment oracle on the callback log and property reads',
